@@ -149,12 +149,19 @@ func (bat *batch2) Exec() ([]interface{}, error) {
 // 这里的关键点是不再自己抢连接和并发写 socket，而是把“如何发送/如何收包”
 // 封装成请求交给节点级 actor 顺序执行。
 func (bat *batch2) Dispatch() error {
-	if bat == nil || bat.batches == nil || len(bat.batches) == 0 {
+	if bat == nil {
 		return nil
 	}
 
+	// a refused Put is reported even when it left no node batch behind (every command of the
+	// flush was refused, e.g. a lone multi-key command whose keys live on different nodes) :
+	// otherwise the flush would be acknowledged although no node executed anything
 	if bat.err != nil {
 		return bat.err
+	}
+
+	if bat.batches == nil || len(bat.batches) == 0 {
+		return nil
 	}
 
 	for i := range bat.batches {
@@ -201,12 +208,16 @@ func (bat *batch2) Dispatch() error {
 // Receive 等待所有节点 batch 的回复完成，然后按原始入队顺序重组结果。
 // Dispatch 时按 node 聚合过命令，因此这里需要借助 index 把结果还原给调用方。
 func (bat *batch2) Receive() ([]interface{}, error) {
-	if bat == nil || bat.batches == nil || len(bat.batches) == 0 {
+	if bat == nil {
 		return []interface{}{}, nil
 	}
 
 	if bat.err != nil {
 		return nil, bat.err
+	}
+
+	if bat.batches == nil || len(bat.batches) == 0 {
+		return []interface{}{}, nil
 	}
 
 	for i := range bat.batches {
